@@ -32,6 +32,7 @@ typedef struct {
 	size_t avail_out;
 	uint64_t total_out;
 	int toy_is_enc;
+	int toy_bad;	/* sticky error, see zlib.h */
 	toy_enc_t toy_enc;
 	toy_dec_t toy_dec;
 } lzma_stream;
@@ -53,6 +54,7 @@ static lzma_ret lzma_stream_decoder(lzma_stream *s, uint64_t memlimit, uint32_t 
 	(void)memlimit; (void)flags;
 	s->total_in = s->total_out = 0;
 	s->toy_is_enc = 0;
+	s->toy_bad = 0;
 	toy_dec_init(&s->toy_dec);
 	return LZMA_OK;
 }
@@ -69,6 +71,8 @@ static lzma_ret lzma_code(lzma_stream *s, lzma_action a)
 {
 	size_t c, p;
 	int r;
+	if (s->toy_bad)
+		return LZMA_DATA_ERROR;
 	if (s->toy_is_enc)
 		r = toy_enc_step(&s->toy_enc, s->next_in, s->avail_in, s->next_out, s->avail_out,
 				 a == LZMA_FINISH, &c, &p);
@@ -81,7 +85,7 @@ static lzma_ret lzma_code(lzma_stream *s, lzma_action a)
 	case TOY_OK: return LZMA_OK;
 	case TOY_END: return LZMA_STREAM_END;
 	case TOY_BUF: return LZMA_BUF_ERROR;
-	default: return toy_lzma_errcode();
+	default: s->toy_bad = 1; return toy_lzma_errcode();
 	}
 }
 
